@@ -142,11 +142,17 @@ func ruleLockRegions(c *Ctx, rule string) {
 			c.check(rule, "doProcessFlush swaps fileStore and memStore atomically", a[0].Pos(), li.sameRegion(a[0], b[0], lkWrite), "both stores happen in one write-held region of rs.mx", "the new file store and the new (empty) memstore are not installed in one write-held region: a concurrent query can pair the new file with the old memstore (double count) or the old file with the new memstore (loss)")
 		}
 	}
-	// processInserts: offset map update and tree.Update in one write-held region
+	// ingest: offset map update and tree.Update in one write-held region (in
+	// processInserts itself or in the private helper that applies an insert)
 	if pi := c.need(rule, "(*z.rowStore).processInserts"); pi != nil {
-		li := lockRegions(pi, "z.rowStore.mx")
+		ap, _ := ingestApplier(c.P)
+		if ap == nil || !privateHelperOf(c.P, ap, pi) {
+			c.undecided(rule, "processInserts offset/row atomicity", pi.Pos(), "the function applying inserts to the memstore is not processInserts or a private helper of it")
+			return
+		}
+		li := lockRegions(ap, "z.rowStore.mx")
 		var mu, up ssa.Instruction
-		for _, in := range instrs(pi) {
+		for _, in := range instrs(ap) {
 			if m, ok := in.(*ssa.MapUpdate); ok && isFieldLoad(m.Map, "z.memstore.offsetsBySource") {
 				mu = in
 			}
@@ -157,7 +163,16 @@ func ruleLockRegions(c *Ctx, rule string) {
 		if mu == nil || up == nil {
 			c.undecided(rule, "processInserts offset/row atomicity", pi.Pos(), "offset map update or tree.Update not found")
 		} else {
-			c.check(rule, "processInserts applies offset and row in one critical section", up.Pos(), li.sameRegion(mu, up, lkWrite), "ms.offsetsBySource[source]=offset and ms.tree.Update are in one write-held region", "the WAL offset and the row update of one insert are not applied in one write-held region of rs.mx: a snapshot/flush in between records the offset without the row (lost point after restart) or the row without the offset (double count)")
+			ok := li.sameRegion(mu, up, lkWrite)
+			if !ok && ap != pi && li.state[mu] == lkNone && li.state[up] == lkNone {
+				// the helper does not lock itself: its (single) call site must be inside a write-held region
+				cs := callSitesOf(c.P, ap)
+				if len(cs) == 1 {
+					lp := lockRegions(cs[0].Parent(), "z.rowStore.mx")
+					ok = lp.state[cs[0]] == lkWrite
+				}
+			}
+			c.check(rule, "processInserts applies offset and row in one critical section", up.Pos(), ok, "ms.offsetsBySource[source]=offset and ms.tree.Update are in one write-held region", "the WAL offset and the row update of one insert are not applied in one write-held region of rs.mx: a snapshot/flush in between records the offset without the row (lost point after restart) or the row without the offset (double count)")
 		}
 	}
 }
